@@ -12,7 +12,7 @@ open Gzx Gzx.Image1D Gzx.Image1DScan Gzx.OneD Gzx.WriterFrontend
 theorem rendered_geometry (mods : List Bool) (hn : 1 ≤ mods.length) (width margin : Nat) :
     ∃ lq s rq, renderRow mods width margin = .ok (paddedRow lq s rq mods) ∧ 1 ≤ s ∧ margin * s ≤ lq + rq ∧
       lq = (lq + rq) / 2 ∧ lq + mods.length * s + rq = max width (mods.length + margin) ∧
-      s ≤ max width (mods.length + margin) := by
+      s ≤ max 1 width := by
   generalize hW : max width (mods.length + margin) = W
   generalize hS : W / (mods.length + margin) = s
   have hfw : 0 < mods.length + margin := by omega
@@ -22,9 +22,13 @@ theorem rendered_geometry (mods : List Bool) (hn : 1 ≤ mods.length) (width mar
   rw [Nat.mul_add] at hle
   have e1 : mods.length * s = s * mods.length := Nat.mul_comm _ _
   have e2 : margin * s = s * margin := Nat.mul_comm _ _
-  have hsW : s ≤ W := by
-    have : s * 1 ≤ s * (mods.length + margin) := Nat.mul_le_mul_left s hfw
-    rw [Nat.mul_add] at this; omega
+  have hsW : s ≤ max 1 width := by
+    by_cases hc : width ≤ mods.length + margin
+    · have : W = mods.length + margin := by rw [← hW]; omega
+      rw [← hS, this, Nat.div_self hfw]; omega
+    · have : W = width := by rw [← hW]; omega
+      have h1 : s * 1 ≤ s * (mods.length + margin) := Nat.mul_le_mul_left s hfw
+      rw [Nat.mul_add] at h1; omega
   refine ⟨(W - mods.length * s) / 2, s, W - (W - mods.length * s) / 2 - mods.length * s, ?_, hs1, by omega, by omega,
     by omega, hsW⟩
   rw [renderRow_padded mods width margin (by omega), hW, hS]
@@ -55,7 +59,7 @@ theorem paddedRow_border (lq s rq : Nat) (mods : List Bool) (hs : 1 ≤ s) (hl :
 theorem path_upright {R : Type} (rd : Int → List Bool → Res R) (mods : List Bool) (hbar : true ∈ mods)
     (width height margin : Nat) (hm : 2 ≤ margin) (binz : Binz) (th : Bool) (P : R → Prop)
     (hrd : ∀ (lq s rq : Nat) (rn : Int), 1 ≤ s → margin * s ≤ lq + rq → lq = (lq + rq) / 2 →
-      s ≤ max width (mods.length + margin) → ∃ res, rd rn (paddedRow lq s rq mods) = .ok res ∧ P res) :
+      s ≤ max 1 width → ∃ res, rd rn (paddedRow lq s rq mods) = .ok res ∧ P res) :
     ∃ img res, Render.render1D mods (width : Int) (height : Int) (margin : Int) = .ok img ∧
       decodeImage rd (Bitmap.ofPic binz (Pic.ofImage img)) th = .ok ⟨res, max 1 height / 2, false, false, none⟩ ∧ P res := by
   have hn : 1 ≤ mods.length := List.length_pos_of_mem hbar
@@ -84,7 +88,7 @@ theorem uniform_rot180 (row : List Bool) (h : Nat) : (uniform row h).rot180 = un
 theorem path_upside_down {R : Type} (rd : Int → List Bool → Res R) (mods : List Bool) (hbar : true ∈ mods)
     (width height margin : Nat) (hm : 2 ≤ margin) (binz : Binz) (th : Bool) (P : R → Prop)
     (hrd : ∀ (lq s rq : Nat) (rn : Int), 1 ≤ s → margin * s ≤ lq + rq → lq = (lq + rq) / 2 →
-      s ≤ max width (mods.length + margin) →
+      s ≤ max 1 width →
       (∃ e, OneDScan.isReaderException e = true ∧ rd rn (paddedRow lq s rq mods).reverse = .error e) ∧
       ∃ res, rd rn (paddedRow lq s rq mods) = .ok res ∧ P res) :
     ∃ img res, Render.render1D mods (width : Int) (height : Int) (margin : Int) = .ok img ∧
